@@ -90,6 +90,7 @@ def gen_engine(
     resolutions=RES,
     locks=True,
     descriptions=False,
+    infinite=False,
 ):
     nin, nout, nrb = rnd.randint(1, max_inputs), rnd.randint(1, 2), rnd.randint(1, 2)
     off = (lambda p: rnd.random() < p) if flags else (lambda p: False)
@@ -148,6 +149,16 @@ def gen_engine(
             text = "if " + tree_text(rnd, tree, redundant=rnd.choice([0, 0, 0.3]), tight=rnd.choice([0, 0.5])) + " then " + " and ".join(prop_text(c) for c in concl) + weight_text(w, d)
             rb["rules"].append(dict(text=text, tree=tree, concl=concl, weight=w, enabled=not off(0.1)))
         spec["blocks"].append(rb)
+    if descriptions:
+        for part in spec["outputs"] + spec["blocks"]:
+            part["description"] = rnd.choice(["", "", "some text: with a colon", "x = 1, y = 2 (approx.)"])
+    if infinite:
+        for v in spec["inputs"] + [o for o in spec["outputs"] if o["kind"] != "integral"]:
+            if rnd.random() < 0.25 and not v["lock_range"]:
+                if rnd.random() < 0.5:
+                    v["minimum"] = -inf
+                if rnd.random() < 0.6:
+                    v["maximum"] = inf
     return spec
 
 
@@ -202,16 +213,18 @@ def rows(rnd, spec, n):
         row = []
         for v in spec["inputs"]:
             c = rnd.random()
+            lo = v["minimum"] if math.isfinite(v["minimum"]) else -10.0
+            hi = v["maximum"] if math.isfinite(v["maximum"]) else lo + 20.0
             if c < 0.55:
-                x = rnd.uniform(v["minimum"], v["maximum"])
+                x = rnd.uniform(lo, hi)
             elif c < 0.65:
-                x = rnd.choice([v["minimum"], v["maximum"]])
+                x = rnd.choice([lo, hi])
             elif c < 0.8:
                 ps = G.breakpoints(rnd.choice(v["terms"]))
                 x = rnd.choice(ps) if ps else 0.0
                 x = rnd.choice([x, math.nextafter(x, inf), math.nextafter(x, -inf)])
             elif c < 0.88:
-                x = rnd.choice([v["minimum"] - 1, v["maximum"] + 1])
+                x = rnd.choice([lo - 1, hi + 1])
             elif c < 0.94:
                 x = rnd.choice([inf, -inf])
             else:
@@ -222,4 +235,9 @@ def rows(rnd, spec, n):
 
 
 def finite_rows(rnd, spec, n):
-    return [[(x if math.isfinite(x) else rnd.uniform(v["minimum"], v["maximum"])) for x, v in zip(r, spec["inputs"])] for r in rows(rnd, spec, n)]
+    def mid(v):
+        lo = v["minimum"] if math.isfinite(v["minimum"]) else -10.0
+        hi = v["maximum"] if math.isfinite(v["maximum"]) else lo + 20.0
+        return rnd.uniform(lo, hi)
+
+    return [[(x if math.isfinite(x) else mid(v)) for x, v in zip(r, spec["inputs"])] for r in rows(rnd, spec, n)]
